@@ -3,7 +3,7 @@ import edit_engine as G
 
 META = {
     "id": "C03",
-    "claimed": False,
+    "claimed": True,
     "driver_id": "Edit",
     "coq_targets": ["Props/C03.vo", "Extract/Extract_Edit.vo"],
     "technique": 'Coq invariant / refinement proofs over the executable edit-machine model + step-by-step differential correspondence of the extracted model with the implementation + direct oracle on the implementation',
